@@ -1160,6 +1160,46 @@ func c06Queries(e *c06env) {
 		// expressions rendered with the parameters as $0,$1,.. and loop variables lettered in order of
 		// first appearance, so the rule does not depend on what anything is called
 		canon := func(e string) string {
+			// a square taken from 'range bb.ToSquares()' is the same loop variable as one popped off bb: written as such,
+			// keyed by the board it ranges over (innermost first)
+			keys := map[string]int{}
+			for changed := true; changed; {
+				changed = false
+				from := 0
+				for {
+					i := strings.Index(e[from:], "ToSquares(")
+					if i < 0 {
+						break
+					}
+					i += from
+					depth, j := 0, i+len("ToSquares")
+					for ; j < len(e); j++ {
+						if e[j] == '(' {
+							depth++
+						} else if e[j] == ')' {
+							depth--
+							if depth == 0 {
+								break
+							}
+						}
+					}
+					if j >= len(e) {
+						break
+					}
+					inner := e[i+len("ToSquares(") : j]
+					m := regexp.MustCompile(`^\[\(phi:\w*\+1\)\]`).FindString(e[j+1:])
+					if strings.Contains(inner, "ToSquares(") || m == "" {
+						from = i + len("ToSquares(")
+						continue
+					}
+					if _, ok := keys[inner]; !ok {
+						keys[inner] = len(keys)
+					}
+					e = e[:i] + fmt.Sprintf("LastPopSquare(phi:rng%d)", keys[inner]) + e[j+1+len(m):]
+					changed = true
+					break
+				}
+			}
 			for i, p := range fpins.Params {
 				e = regexp.MustCompile(`\b`+regexp.QuoteMeta(paramName(p))+`\b`).ReplaceAllString(e, fmt.Sprintf("$$%d", i))
 			}
